@@ -22,7 +22,8 @@ Conventions
   * a program is `List Nat` (bytes); the operand stack is a `List Val` with the TOP AT THE HEAD (Go keeps the top at the
     end of the slice: Go index i of a stack of height h is list index h-1-i);
   * the call stack has its top at the head;
-  * `nextpc = 0` means "not set": `step`/`checkStep` then advance by `Size` (exactly the Go rule, ambiguity included);
+  * `nextpc = 0` means "not set": `step`/`checkStep` then advance by `Size` (exactly the Go rule; since the fix
+    "AVM rejects a computed branch target of 0" no branch-target function returns 0, which removed the ambiguity);
   * every place where the Go code indexes a slice is a guarded access here; the guard failing is the explicit error
     `Err.crash` (= the Go code would panic). Reading `.Uint` of a byte value / `.Bytes` of a uint where the op's
     prototype promises the other type is also `crash` (unreachable after step's type check).
@@ -244,7 +245,8 @@ def branchTarget (lim : Limits) (prog : List Nat) (pc v : Nat) : Except Err Nat 
   | .ok offset =>
     if offset < 0 ∧ v < lim.backBranchV then .error .op else
     let target : Int := (pc : Int) + 3 + offset
-    let tooFar : Bool := if v ≥ 2 then decide (target > prog.length ∨ target < 0) else decide (target ≥ prog.length ∨ target < 0)
+    -- pc 0 lies inside the version varint: never a target (and nextpc = 0 means "not set")
+    let tooFar : Bool := if v ≥ 2 then decide (target > prog.length ∨ target ≤ 0) else decide (target ≥ prog.length ∨ target ≤ 0)
     if tooFar then .error .op else .ok target.toNat
 
 /-- eval.go:switchTarget -/
@@ -261,7 +263,7 @@ def switchTarget (prog : List Nat) (pc : Nat) (branchIdx : Nat) : Except Err Nat
     | .error e => .error e
     | .ok offset =>
       let target : Int := (eoi : Int) + offset
-      if target > prog.length ∨ target < 0 then .error .op else .ok target.toNat
+      if target > prog.length ∨ target ≤ 0 then .error .op else .ok target.toNat
 
 /-- eval.go:branchTargetVarint: (target, instrSize) -/
 def branchTargetVarint (prog : List Nat) (pc : Nat) : Except Err (Nat × Nat) :=
@@ -270,7 +272,7 @@ def branchTargetVarint (prog : List Nat) (pc : Nat) : Except Err (Nat × Nat) :=
   | .ok (offset, bytesRead) =>
     let instrSize := 1 + bytesRead
     let target : Int := if offset < 0 then (pc : Int) + offset else (pc : Int) + instrSize + offset
-    if target > prog.length ∨ target < 0 then .error .op else .ok (target.toNat, instrSize)
+    if target > prog.length ∨ target ≤ 0 then .error .op else .ok (target.toNat, instrSize)
 
 /-- assembler.go:parseIntImmArgs, the loop -/
 def parseIntsLoop (prog : List Nat) : Nat → Nat → List Nat → Except Err (List Nat × Nat)
